@@ -263,10 +263,33 @@ func patchInputs(p *propDef, repo, verif string) ([]map[string]interface{}, []st
 		}
 		jobs = append(jobs, job{s, expect, "seeded/" + filepath.Base(filepath.Dir(s))})
 	}
+	// refactorings on which this property's rules are known to raise a false alarm (stated limits, DESIGN.md 7.3)
+	limits := map[string]bool{}
+	if b, err := os.ReadFile(filepath.Join(verif, "benign", "KNOWN_LIMITS.json")); err == nil {
+		var kl struct {
+			Limits map[string]struct {
+				Properties []string `json:"properties"`
+			} `json:"limits"`
+		}
+		if json.Unmarshal(b, &kl) == nil {
+			for id, l := range kl.Limits {
+				for _, pr := range l.Properties {
+					if pr == p.id {
+						limits[id] = true
+					}
+				}
+			}
+		}
+	}
 	ben, _ := filepath.Glob(filepath.Join(verif, "benign", "*", "*.diff"))
 	sort.Strings(ben)
 	for _, b := range ben {
-		jobs = append(jobs, job{b, "silent", "benign/" + filepath.Base(filepath.Dir(b)) + "/" + strings.TrimSuffix(filepath.Base(b), ".diff")})
+		id := "benign/" + filepath.Base(filepath.Dir(b)) + "/" + strings.TrimSuffix(filepath.Base(b), ".diff")
+		expect := "silent"
+		if limits[id] {
+			expect = "known-limit"
+		}
+		jobs = append(jobs, job{b, expect, id})
 	}
 	out := make([]map[string]interface{}, len(jobs))
 	var mu sync.Mutex
@@ -336,12 +359,16 @@ func runPatch(p *propDef, repo, verif, patch, expect string) (string, string) {
 		rep = rep[:400] + "…"
 	}
 	switch {
+	case expect == "known-limit" && code != 0:
+		return "known-limit", rep
 	case code == 2 || code > 3:
 		return "error", lastNonEmpty(string(o))
 	case expect == "fire" && code == 1:
 		return "fired", rep
 	case expect == "fire":
 		return "missed", "no rule fired"
+	case code == 1 && expect == "known-limit":
+		return "known-limit", rep
 	case code == 1:
 		return "false-alarm", rep
 	}
